@@ -575,9 +575,44 @@ package agent
 //@   loop 1:
 //@     invariant 0 <= index && this.depth_ == old(this.depth_) && this.depth_ < this.maximum_
 //@     decreases count - index
+//@ declare rbool(U) Bool
+//@ declare rint(U) Int
+//@ declare ruint(U) Int
+//@ declare rfloat(U) F64
+//@ declare rcplx(U) Cplx
+//@ declare rstr(U) Str
+//@ assume func (reflect.Value).Bool
+//@   nopanic
+//@   ensures result <==> rbool(this)
+//@ assume func (reflect.Value).Int
+//@   nopanic
+//@   ensures result == rint(this)
+//@ assume func (reflect.Value).Uint
+//@   nopanic
+//@   ensures result == ruint(this)
+//@ assume func (reflect.Value).Float
+//@   nopanic
+//@   ensures result == rfloat(this)
+//@ assume func (reflect.Value).Complex
+//@   nopanic
+//@   ensures result == rcplx(this)
+//@ assume func (reflect.Value).String
+//@   nopanic
+//@   ensures result == rstr(this)
+// each primitive kind is ranked by its natural order (reflect kinds: Bool 1, Int 2, Int8 3, Int16 4, Int32 5, Int64 6,
+// Uint 7, Uint8 8, Uint16 9, Uint32 10, Uint64 11, Float32 13, Float64 14, Complex64 15, Complex128 16, String 24)
 //@ func (*collator_).rankIntrinsics
 //@   props C08 C07
 //@   ensures[C07] result <= 2
+//@   ensures[C07] rkind(first) == 1 ==> result == brank(rbool(first), rbool(second))
+//@   ensures[C07] rkind(first) == 8 ==> result == irank(ruint(first) % 256, ruint(second) % 256)
+//@   ensures[C07] rkind(first) == 7 || rkind(first) == 9 || rkind(first) == 10 || rkind(first) == 11 ==> result == irank(ruint(first), ruint(second))
+//@   ensures[C07] rkind(first) == 2 || rkind(first) == 3 || rkind(first) == 4 || rkind(first) == 6 ==> result == irank(rint(first), rint(second))
+//@   ensures[C07] rkind(first) == 5 ==> result == irank((rint(first) + 2147483648) % 4294967296, (rint(second) + 2147483648) % 4294967296)
+//@   ensures[C07] rkind(first) == 13 || rkind(first) == 14 ==> result == frank(rfloat(first), rfloat(second))
+//@   ensures[C07] rkind(first) == 15 || rkind(first) == 16 ==> result == crank(rcplx(first), rcplx(second))
+//@   ensures[C07] rkind(first) == 24 ==> result == srank(rstr(first), rstr(second))
+//@   xensures[C07] !((1 <= rkind(first) && rkind(first) <= 11) || (13 <= rkind(first) && rkind(first) <= 16) || rkind(first) == 24)
 //@   ensures[C08] this.depth_ == old(this.depth_)
 //@ func (*collator_).RankValues
 //@   props C08 C07
